@@ -4,7 +4,7 @@ CONSTANTS CancelOnExit = TRUE
  RestoreTimerFirst = TRUE
  StartMode = "restore"
  MaxNow = 2
- MaxLevel = 6
+ MaxLevel = 4
  MinStop = 0
  Tables = "some"
 INVARIANT AtMostOnePending
